@@ -270,6 +270,69 @@ fn run(sess: &mut Session, line: &str, out: &mut impl Write) {
             }
             writeln!(out, "pp moves={} bad={}", moves.len(), bad).unwrap();
         }
+        "collide" => {
+            // collide <depth>: all positions of the legal-move tree to that depth; distinct positions
+            // (FEN fields 1-4) must have distinct hashes
+            let g = game!();
+            let depth: u32 = rest.trim().parse().unwrap_or(2);
+            let mut by_hash: HashMap<u64, String> = HashMap::new();
+            let mut nodes: u64 = 0;
+            let mut collision: Option<(String, String)> = None;
+            fn walk(
+                g: &mut Game,
+                d: u32,
+                by_hash: &mut HashMap<u64, String>,
+                nodes: &mut u64,
+                collision: &mut Option<(String, String)>,
+            ) {
+                *nodes += 1;
+                let fen = g.fen();
+                let f14: String = fen.split(' ').take(4).collect::<Vec<_>>().join(" ");
+                match by_hash.get(&g.hash()) {
+                    Some(prev) => {
+                        if *prev != f14 && collision.is_none() {
+                            *collision = Some((prev.clone(), f14));
+                        }
+                    }
+                    None => {
+                        by_hash.insert(g.hash(), f14);
+                    }
+                }
+                if d == 0 {
+                    return;
+                }
+                for m in moves_of(g, true) {
+                    g.push(m);
+                    walk(g, d - 1, by_hash, nodes, collision);
+                    g.pop(m);
+                }
+            }
+            walk(g, depth, &mut by_hash, &mut nodes, &mut collision);
+            writeln!(
+                out,
+                "collide nodes={} distinct={} collision={}",
+                nodes,
+                by_hash.len(),
+                match collision {
+                    Some((a, b)) => format!("{}|{}", a.replace(' ', "_"), b.replace(' ', "_")),
+                    None => String::from("none"),
+                }
+            )
+            .unwrap();
+        }
+        "imp" => {
+            // export the position as text and read that text back: the re-imported game's observables
+            let g = game!();
+            let text = g.fen();
+            match catch_unwind(|| Game::new(&text)) {
+                Ok(Ok(mut g2)) => {
+                    let checked: Vec<String> = moves_of(&mut g2, true).iter().map(|m| m.uci_notation()).collect();
+                    writeln!(out, "imp ok {} checked={}", obs(&g2), checked.join(",")).unwrap();
+                }
+                Ok(Err(_)) => writeln!(out, "imp err text={}", text.replace(' ', "_")).unwrap(),
+                Err(_) => writeln!(out, "imp panic text={}", text.replace(' ', "_")).unwrap(),
+            }
+        }
         "parse" => {
             let g = game!();
             let text = rest;
@@ -334,6 +397,29 @@ fn run(sess: &mut Session, line: &str, out: &mut impl Write) {
                 }
                 Some(m) => writeln!(out, "playbest illegal {}", m.uci_notation()).unwrap(),
                 None => writeln!(out, "playbest none").unwrap(),
+            }
+        }
+        "win" => {
+            // win <q|d|n> <remaining> <alpha> <beta>: one search function called directly with a window (table-less)
+            let g = game!();
+            let a: Vec<&str> = rest.split_ascii_whitespace().collect();
+            let kind = a.first().copied().unwrap_or("q");
+            let rem: u8 = a.get(1).and_then(|x| x.parse().ok()).unwrap_or(0);
+            let alpha: i16 = a.get(2).and_then(|x| x.parse().ok()).unwrap_or(-32767);
+            let beta: i16 = a.get(3).and_then(|x| x.parse().ok()).unwrap_or(32767);
+            let flag = AtomicBool::new(true);
+            verif_hooks::reset(-1, true);
+            sess.table.clear();
+            let r = match kind {
+                "q" => Some(search::verif_entry::quiescence(g, alpha, beta, 1)),
+                "d" => Some(search::verif_entry::depth_1(g, alpha, beta, 1)),
+                _ => search::verif_entry::node(g, &mut sess.table, &flag, rem, 1, alpha, beta),
+            };
+            sess.table.clear();
+            verif_hooks::reset(-1, false);
+            match r {
+                Some(v) => writeln!(out, "win r={}", v).unwrap(),
+                None => writeln!(out, "win aborted").unwrap(),
             }
         }
         "root" => {
